@@ -27,6 +27,8 @@ type PropCfg struct {
 		Bound string   `json:"bound"`
 	} `json:"standins"`
 	Lemmas []string `json:"lemmas"`
+	// NoClosure switches the dependency closure off (callee contracts are then assumptions of this check)
+	NoClosure bool `json:"no_closure"`
 }
 
 type KnownFinding struct {
@@ -173,6 +175,15 @@ func cmdCheck(args []string) int {
 		}
 		fnKeys = append(fnKeys, fk)
 	}
+	propOf := map[string]string{} // function key -> property its clauses were selected by ("" = every clause)
+	index := map[string]int{}     // function key -> position in results
+	support := map[string]bool{}  // functions added by the dependency closure
+	framesMode := len(pc.Functions) > 0
+	for _, fk := range pc.Functions {
+		if !strings.HasPrefix(fk, "frames:") {
+			framesMode = false
+		}
+	}
 	for _, fk := range fnKeys {
 		keys := e.resolveFuncKeys(fk)
 		if len(keys) == 0 {
@@ -180,7 +191,50 @@ func cmdCheck(args []string) int {
 			continue
 		}
 		for _, k := range keys {
+			if _, dup := index[k]; dup {
+				continue
+			}
+			index[k] = len(results)
+			propOf[k] = prop
 			results = append(results, e.VerifyFunction(k, prop, true))
+		}
+	}
+	// Dependency closure: a proof that applies a callee's contract at a call site assumes *all* of that
+	// contract (every ensures clause and the frame, whatever property they are tagged with). Those
+	// clauses are therefore obligations of this check too: every concrete function of the repository
+	// whose contract a proof of this check relied on is verified against its whole contract here
+	// (transitively), not only in the check of the property its clauses are tagged with.
+	if !pc.NoClosure {
+		for changed := true; changed; {
+			changed = false
+			used := map[string]bool{}
+			for _, r := range results {
+				for u := range r.Used {
+					used[u] = true
+				}
+			}
+			for _, u := range sortedKeys(used) {
+				ct := e.db.Contracts[u]
+				if ct == nil || ct.Trusted || ct.Flags["inline"] || e.funcs[u] == nil {
+					continue
+				}
+				if i, ok := index[u]; ok {
+					if propOf[u] != "" && !frameOnly[u] {
+						propOf[u] = ""
+						results[i] = e.VerifyFunction(u, "", true)
+						changed = true
+					}
+					continue
+				}
+				index[u] = len(results)
+				propOf[u] = ""
+				support[u] = true
+				if framesMode {
+					frameOnly[u] = true
+				}
+				results = append(results, e.VerifyFunction(u, "", true))
+				changed = true
+			}
 		}
 	}
 	for _, r := range results {
@@ -225,15 +279,26 @@ func cmdCheck(args []string) int {
 		}
 	}
 	knownBy := map[string]*KnownFinding{}
+	// (a finding or an undecided obligation recorded for another property is the same obligation when
+	// the dependency closure brings its function into this check: entries of this property win)
+	for pass := 0; pass < 2; pass++ {
+		for i := range known {
+			if (known[i].Property == prop) == (pass == 1) && !strings.HasPrefix(known[i].Status, "fixed") && !strings.HasPrefix(known[i].Obligation, "standin:") {
+				knownBy[known[i].Obligation] = &known[i]
+			}
+		}
+	}
 	for i := range known {
 		if known[i].Property == prop && !strings.HasPrefix(known[i].Status, "fixed") {
 			knownBy[known[i].Obligation] = &known[i]
 		}
 	}
 	unprovedBy := map[string]*Unproved{}
-	for i := range unproved {
-		if unproved[i].Property == prop {
-			unprovedBy[unproved[i].Obligation] = &unproved[i]
+	for pass := 0; pass < 2; pass++ {
+		for i := range unproved {
+			if (unproved[i].Property == prop) == (pass == 1) {
+				unprovedBy[unproved[i].Obligation] = &unproved[i]
+			}
 		}
 	}
 	violations := 0
@@ -496,7 +561,17 @@ func cmdCheck(args []string) int {
 		for _, o := range r.Obls {
 			names[o.Name] = true
 		}
-		fnList = append(fnList, map[string]interface{}{"function": r.Key, "obligations": len(names), "path_instances": len(r.Obls), "paths": r.Paths + 1, "has_contract": e.db.Contracts[r.Key] != nil})
+		role := "in the property's function set (clauses tagged " + prop + " and untagged ones)"
+		if propOf[r.Key] == "" {
+			role = "whole contract (its contract is applied at a call site of this check)"
+		}
+		if support[r.Key] {
+			role = "support function added by the dependency closure: whole contract"
+		}
+		if frameOnly[r.Key] {
+			role += "; frame obligations only"
+		}
+		fnList = append(fnList, map[string]interface{}{"function": r.Key, "obligations": len(names), "path_instances": len(r.Obls), "paths": r.Paths + 1, "has_contract": e.db.Contracts[r.Key] != nil, "role": role})
 	}
 	var tb []string
 	tb = append(tb, "go/packages + go/types + go/ssa (x/tools v0.29.0): SSA construction preserves semantics", "govc's own encoding of SSA into SMT-LIB (Int with explicit two's-complement wrapping; floats, strings uninterpreted)", "SMT solvers z3 4.8.12 / z3 5.1.0 / cvc5 1.0.3")
